@@ -26,10 +26,27 @@ func main() {
 	jsonl := flag.String("jsonl", "", "file with one behaviour (JSON array) per line")
 	lastOnly := flag.Bool("last-only", false, "mark every step but the last of a behaviour as judge=false")
 	adapter := flag.String("adapter", "keeper", "keeper (message router on a cache branch) or abci (signed transactions, FinalizeBlock)")
+	exportGen := flag.String("export-genesis", "", "replay this behaviour (keeper adapter) and print the module genesis, the balances of all model accounts and their addresses")
 	addrs := flag.Int("addrs", 0, "print the bech32 addresses of model users u1..uN as JSON and exit")
 	flag.Parse()
 	if *addrs > 0 {
 		json.NewEncoder(os.Stdout).Encode(fr.UserAddrMap(*addrs))
+		return
+	}
+	if *exportGen != "" {
+		bz, err := os.ReadFile(*exportGen)
+		if err != nil {
+			fatal(err)
+		}
+		base, err := fr.NewBase()
+		if err != nil {
+			fatal(err)
+		}
+		out, err := fr.ExportAfter(base, bz)
+		if err != nil {
+			fatal(err)
+		}
+		os.Stdout.Write(out)
 		return
 	}
 	files := flag.Args()
